@@ -157,7 +157,7 @@ func (w *world) enabled() []wop {
 				if len(o.item.Variables()) == 0 && hroom {
 					ops = append(ops, wop{"new-hsms", i, 2, 0})
 				}
-				ops = append(ops, wop{"new-msg", i, 0, 0})
+				ops = append(ops, wop{"new-msg", i, 0, 0}, wop{"wrap-var", i, 0, len(w.objs)})
 			}
 		}
 	}
@@ -320,6 +320,8 @@ func (w *world) apply(o wop) (pan string) {
 		b := freshBuf(o.b)
 		w.hold(wheld{b: b, from: birth})
 		w.add(wobj{msg: ast.NewHSMSDataMessage("h", 1, 3, 1, "H->E", w.objs[o.a].item, 12, b)}, birth)
+	case "wrap-var":
+		w.add(wobj{item: ast.NewListNode(w.objs[o.a].item, fmt.Sprintf("nw%d", o.p))}, birth)
 	case "new-msg":
 		w.add(wobj{msg: ast.NewDataMessage("d", 2, 5, 2, "H<-E", w.objs[o.a].item)}, birth)
 	case "ctl-from-held":
@@ -460,7 +462,7 @@ func min2(a, b int) int {
 
 // c11Roots builds the initial pools; each call returns fresh objects.
 var c11RootNames = []string{"complete-message-with-caller-owned-system-bytes", "incomplete-message-two-variables", "list-template-shared-by-two-messages",
-	"control-message-from-caller-owned-header", "decoded-message-with-kept-input-buffer", "items-of-every-kind", "empty-items-of-several-kinds"}
+	"control-message-from-caller-owned-header", "decoded-message-with-kept-input-buffer", "items-of-every-kind", "empty-items-of-several-kinds", "lists-with-1-to-4-variables", "decoded-message-with-long-items-and-kept-buffer", "optional-wait-bit-message-otherwise-complete"}
 
 func c11Root(i int) *world {
 	w := &world{}
@@ -494,6 +496,25 @@ func c11Root(i int) *world {
 		w.hold(wheld{b: buf, from: "root"})
 		m, _ := hsms.Parse(buf)
 		w.add(wobj{msg: m.(*ast.DataMessage)}, "root")
+	case 7:
+		w.add(wobj{item: ast.NewListNode("n1")}, "root")
+		w.add(wobj{item: ast.NewListNode("n1", "n2", "n3")}, "root")
+		w.add(wobj{item: ast.NewListNode(ast.NewUintNode(1, "i1", "i2"), "n3", ast.NewASCIINodeVariable("s4", 0, -1))}, "root")
+	case 8:
+		long := strings.Repeat("long text ", 30)
+		vals := make([]interface{}, 300)
+		for i := range vals {
+			vals[i] = i % 200
+		}
+		m0 := ast.NewHSMSDataMessage("", 3, 5, 1, "H<->E", ast.NewListNode(ast.NewASCIINode(long), ast.NewUintNode(1, vals...), ast.NewBinaryNode(vals...)), 7, []byte{1, 2, 3, 4})
+		b := m0.ToBytes()
+		buf := append(make([]byte, 0, len(b)+8), b...)
+		w.hold(wheld{b: buf, from: "root"})
+		m, _ := hsms.Parse(buf)
+		w.add(wobj{msg: m.(*ast.DataMessage)}, "root")
+	case 9:
+		it := ast.NewListNode(ast.NewUintNode(2, 1, 2), ast.NewASCIINode("x"))
+		w.add(wobj{msg: ast.NewDataMessage("opt", 1, 3, 2, "H->E", it).SetSessionIDAndSystemBytes(300, []byte{4, 3, 2, 1})}, "root")
 	case 6:
 		e := ast.NewListNode()
 		w.add(wobj{item: e}, "root")
